@@ -42,23 +42,15 @@ def horizon(sc):
 
 
 def run_one(sc, prefix=(), seed=0, keep=False):
-    net = Net(sc, prefix)
+    from ..scen import Driver
+    d = Driver(sc, prefix, seed)
     try:
-        order = sc.get('order') or list(range(len(sc['msgs'])))
-        for i in order:
-            net.submit(sc['msgs'][i], seed)
-        net.w.run_for(horizon(sc))
-        probs = []
-        for (m, r, _b, _a, _d) in net.sent:
-            if r is not True and m['size'] > 8:
-                probs.append("send_pgn returned %r for a message on a free (SA,DA) pair" % (r,))
-        probs += net.judge_deliveries()
-        probs += net.job_problems()
-        probs += net.idle_problems()
-        out = (net.chooser.points, probs, net.outcome(), net.trace() if keep else None)
+        d.run()
+        probs = d.standard_problems()
+        probs = [p.replace('within capacity', 'on a free (SA,DA) pair') for p in probs]
+        return d.net.chooser.points, probs, d.net.outcome(), d.net.trace() if keep else None
     finally:
-        net.close()
-    return out
+        d.net.close()
 
 
 def sig_of(probs):
@@ -155,6 +147,34 @@ def scenarios(tier):
                     if order:
                         sc['order'] = order
                     items.append((sc, 1))
+    # (c) a second message submitted right after the n-th bus frame of the first, for every n: same pair (may be refused
+    #     while the first is in progress, must be delivered if accepted), other pair of the same source, BAM / RTS-CTS mixes
+    for (m1, m2) in [(msg(0x10, 'p2p', 0x20, 20), msg(0x10, 'p2p', 0x20, 15)),
+                     (msg(0x10, 'p2p', 0x20, 16), msg(0x10, 'p2p', 0x21, 22)),
+                     (msg(0x10, 'bam2', 0x31, 16), msg(0x10, 'bam2', 0x32, 23)),
+                     (msg(0x10, 'bam2', 0x31, 16), msg(0x10, 'p2p', 0x20, 23)),
+                     (msg(0x10, 'p2p', 0x20, 23), msg(0x10, 'bam1', 255, 9)),
+                     (msg(0x10, 'p2p', 0x20, 20), msg(0x20, 'p2p', 0x10, 15))]:
+        for wins in [(1, 1, 1), (2, 3, 255)]:
+            for base in (LATS if not quick else [1e-3, 0.0]):
+                for n in range(1, 15):
+                    sc = {'dll': DLL, 'stacks': stacks3(*wins), 'base_lat': base, 'late_ok': True,
+                          'msgs': [m1, dict(m2, after=n, may_refuse=True)]}
+                    items.append((sc, 0))
+    # (d) the application reacts from inside a callback: next message on the same pair from the callback that reports the
+    #     end-of-message acknowledgement, a reply in the other direction from the delivery callback
+    for wins in [(1, 1, 1), (2, 3, 255), (255, 255, 255)]:
+        for base in LATS:
+            for sz in (20, 21, 9):
+                ms = [msg(0x10, 'p2p', 0x20, sz),
+                      dict(msg(0x10, 'p2p', 0x20, sz + 3), on={'tag': 'A.ca10', 'kind': 'ack'}, may_refuse=True),
+                      dict(msg(0x20, 'p2p', 0x10, sz + 5), on={'tag': 'B.ca20', 'kind': 'data'}, may_refuse=True),
+                      dict(msg(0x10, 'bam2', 0x44, sz + 1), on={'tag': 'A.ecu', 'kind': 'ack'}, may_refuse=True)]
+                sc = {'dll': DLL, 'stacks': stacks3(*wins), 'base_lat': base, 'msgs': ms}
+                if base in (1e-3, 0.0) and sz == 20:
+                    sc['lat_grid'] = lat_grid(base)
+                    sc['wake_grid'] = WAKES
+                items.append((sc, 1 if 'lat_grid' in sc else 0))
     if not quick:
         # bound 2 on the small two-message sets; four stacks
         for ms in sets[:3]:
